@@ -247,6 +247,12 @@ def check_model(case, shard):
         except E.FailedMinimization:
             shard.skip("fit reported failure (rewritten model)")
             continue
+        except ValueError as e:
+            if want_limit and ("NaN" in str(e) or "sign" in str(e) or "bracket" in str(e)):
+                shard.skip("limit scan of the rewritten model did not bracket / hit NaN (domain, as for the original)")
+                continue
+            shard.violate("C15/rewritten-model-raised", f"rewrite {kinds}: {type(e).__name__}: {str(e)[:200]}", c, "rewrite_relation")
+            continue
         except Exception as e:
             shard.violate("C15/rewritten-model-raised", f"rewrite {kinds}: {type(e).__name__}: {str(e)[:200]}", c, "rewrite_relation")
             continue
@@ -312,8 +318,13 @@ def check_model(case, shard):
 def make_case(rng, backend, tier):
     import pyhf
 
+    # a third of the models carry a second, free normfactor on a background (parameter order != name order);
+    # they are less well conditioned (clean noise up to 5e-4 on CLs under structural rewrites), so only the
+    # order/name rewrites, whose relations are exact or nearly so, are applied to them
+    with_free_norm = rng.random() < 0.34
+
     spec, _ = gen.gen_spec(rng, profile="wellposed", max_channels=2, max_samples=3, max_bins=3, max_nuis=9,
-                           types=["normsys", "histosys", "shapesys", "staterror", "lumi"])
+                           types=["normsys", "histosys", "shapesys", "staterror", "lumi"] + (["normfactor"] if with_free_norm else []))
     spec["parameters"] = [p for p in spec["parameters"] if p["name"] == "lumi"]
     for p in spec["parameters"]:
         p["fixed"] = False
@@ -337,6 +348,8 @@ def make_case(rng, backend, tier):
         obs[c] = [float(gen.poisson_draw(rng, x)) for x in rates[sl]]
     singles = [[i] for i in range(len(REWRITES))]
     pairs = [rng.sample(range(len(REWRITES)), 2) for _ in range(2 if tier == "quick" else 6)]
+    if with_free_norm:
+        singles, pairs = [[0], [1], [1]], [[0, 1], [1, 0]]
     return {"spec": spec, "obs": obs, "mu": rng.choice([0.8, 1.0, 1.5, 2.0]), "chains": singles + pairs, "backend": backend, "seed": rng.randrange(1 << 30)}
 
 
@@ -361,12 +374,13 @@ def run_shard(shard):
     rng = random.Random(p["seed"])
     for k in range(p["n"]):
         case = make_case(rng, p["backend"], shard.tier)
+        free_norm = any(m["type"] == "normfactor" and m["name"] != "mu" for c in case["spec"]["channels"] for s_ in c["samples"] for m in s_["modifiers"])
         if p["configs"]:
             case["configs"] = [("jax", "scipy"), ("pytorch", "scipy"), ("tensorflow", "scipy"), ("numpy", "minuit")]
             case["chains"] = case["chains"][:3]
         if p.get("limit") and k == 0:
             case["limit"] = True
-            case["chains"] = [[0], [1], [6], [4]]
+            case["chains"] = [[0], [1]] if free_norm else [[0], [1], [6], [4]]
         check_model(case, shard)
         if k == 0 and shard.index == 0:
             shard.sample({k2: v for k2, v in case.items()})
